@@ -38,6 +38,30 @@ pub struct BfsStats {
     pub exhaustive_within_bound: bool,
 }
 
+/// Engine cross-check: enumerate EVERY history of <= max_ops operations without any state merging
+/// (plain DFS, sequential) and return (histories executed, distinct keys seen). The number of distinct
+/// keys must equal the number of states the merging BFS reports for the same bound.
+pub fn enumerate_unmerged<M: Explorable>(model: &M, max_ops: usize) -> (u64, u64) {
+    fn rec<M: Explorable>(model: &M, s: &M::State, left: usize, histories: &mut u64, keys: &mut std::collections::HashSet<u128>) {
+        keys.insert(fp128(model.key(s).as_bytes()));
+        *histories += 1;
+        if left == 0 {
+            return;
+        }
+        for a in model.actions(s) {
+            if let Some(child) = model.step(s, &a) {
+                rec(model, &child, left - 1, histories, keys);
+            }
+        }
+    }
+    let mut histories = 0u64;
+    let mut keys = std::collections::HashSet::new();
+    for s in model.init() {
+        rec(model, &s, max_ops, &mut histories, &mut keys);
+    }
+    (histories, keys.len() as u64)
+}
+
 pub fn explore<M: Explorable>(ctx: &Ctx, model: &M, max_ops: usize) -> BfsStats {
     let seen = DistinctSet::new();
     let transitions = AtomicU64::new(0);
